@@ -89,3 +89,59 @@ Example C01_nonvacuous_type5 : exists bits,
          VEnum E_EpfdType 1; VInt 5; VInt 15; VInt 14; VInt 0; VFloat 122 10; VStr [78; 69; 87; 32; 89; 79; 82; 75];
          VBool false; VBytes [0]]).
 Proof. eexists. split; [vm_compute; reflexivity|]. vm_compute. repeat split. Qed.
+
+(* ================================================================================================ *)
+(* Composition with the carrier and the decoder entry point (Proofs/EndToEndC01.v over C04's carrier_vs_bits and the
+   armoring round trip): C01 for  pyais.decode( *sentences )  instead of for the payload decoder alone. *)
+Require Import Model.Sentence Model.DecodeApi Spec.CarrierSpec Proofs.EndToEndC01.
+
+(* For every layout variant, every bit string of its nominal length whose discriminator bits select the variant (text
+   padding zero), and EVERY carrier [ss] of the armoring (p, fill) of those bits -- Spec/CarrierSpec.v: p cut into 1..5
+   sentences of at most 200 payload characters, any two-letter talker, VDM/VDO in any letter case, channel A/B/1/2/empty,
+   any common sequence id, fill bits on the last sentence, any two hex digits as checksum, optional tag block and
+   trailing white space, the sentences in ANY order -- decode( *ss ) succeeds, returns the class of the variant, and every
+   field in layout order satisfies the value the ITU layout assigns to the bits at its offset. *)
+Theorem C01_through_carrier : forall v bits p fill ss,
+  List.length bits = nominal v -> spec_variant bits = Some v -> text_pad_zero v bits = true ->
+  encode_ascii_6 bits = Ok (p, fill) -> is_carrier p fill ss ->
+  exists nmea vals,
+    decode_api false ss = Ok (nmea, (cls_of v, vals)) /\
+    Forall2 val_matches vals (map snd (spec_decode v bits)) /\
+    map f_name (fields_of (cls_of v)) = map fst (spec_decode v bits) /\
+    class_name (cls_of v) = variant_class v.
+Proof. exact c01_through_carrier. Qed.
+Print Assumptions C01_through_carrier.
+
+(* non-vacuity: the bits of a real type 5 message (424 = nominal V5) satisfy the hypotheses; their armoring is the 71
+   characters below with 2 fill bits; the carrier is the one of C04's example -- two parts handed over in REVERSED order,
+   talkers AB / BS, "VDO" / "vdm", channels B / 1, wrong checksums, a tag block on one part, CR LF / a blank after them:
+       \g:2-2-5*6F\!ABVDO,2,2,7,B,F@V@00000000000,2*5A<CR><LF>
+       !BSvdm,2,1,7,1,538CQ>02A;h?D9QC800pu8@T>0P4l9E8L0000017Ah:;;5r50Ahm5;C0,0*00<blank>
+   and decode_api returns (by vm_compute) a MessageType5 whose fields are the layout's values *)
+Definition c01_ex_p1 : list Z :=
+  [53; 51; 56; 67; 81; 62; 48; 50; 65; 59; 104; 63; 68; 57; 81; 67; 56; 48; 48; 112; 117; 56; 64; 84; 62; 48; 80; 52;
+   108; 57; 69; 56; 76; 48; 48; 48; 48; 48; 49; 55; 65; 104; 58; 59; 59; 53; 114; 53; 48; 65; 104; 109; 53; 59; 67; 48].
+Definition c01_ex_p2 : list Z := [70; 64; 86; 64; 48; 48; 48; 48; 48; 48; 48; 48; 48; 48; 48].
+Definition c01_ex_o1 : carrier_opts := mkOpts [66; 83] [118; 100; 109] [49] [48; 48] None [32].
+Definition c01_ex_o2 : carrier_opts :=
+  mkOpts [65; 66] [86; 68; 79] [66] [53; 65] (Some [103; 58; 50; 45; 50; 45; 53; 42; 54; 70]) [13; 10].
+Definition c01_ex_ss : list (list Z) :=
+  [sentence_text c01_ex_o2 2 2 (Some 7%nat) c01_ex_p2 2; sentence_text c01_ex_o1 2 1 (Some 7%nat) c01_ex_p1 0].
+
+Example C01_through_carrier_nonvacuous : exists bits nmea vals,
+  decode_into_bit_array (c01_ex_p1 ++ c01_ex_p2) 2 = Ok bits /\
+  List.length bits = nominal V5 /\ spec_variant bits = Some V5 /\ text_pad_zero V5 bits = true /\
+  encode_ascii_6 bits = Ok (c01_ex_p1 ++ c01_ex_p2, 2%nat) /\
+  is_carrier (c01_ex_p1 ++ c01_ex_p2) 2 c01_ex_ss /\
+  decode_api false c01_ex_ss = Ok (nmea, (MessageType5, vals)) /\
+  List.length vals = 21%nat /\ nth 0 vals VNone = VInt 5 /\ nth 2 vals VNone = VInt 210035000 /\
+  nth 6 vals VNone = VStr [78; 79; 82; 68; 73; 67; 32; 72; 65; 77; 66; 85; 82; 71].      (* "NORDIC HAMBURG" *)
+Proof.
+  eexists. eexists. eexists.
+  split; [vm_compute; reflexivity|]. split; [vm_compute; reflexivity|]. split; [vm_compute; reflexivity|].
+  split; [vm_compute; reflexivity|]. split; [vm_compute; reflexivity|].
+  split.
+  { apply (Proofs.CarrierProofs.carrier_checkb_sound _ _ [(c01_ex_p1, c01_ex_o1); (c01_ex_p2, c01_ex_o2)] (Some 7%nat)).
+    vm_compute. reflexivity. }
+  split; [vm_compute; reflexivity|]. repeat split; vm_compute; reflexivity.
+Qed.
